@@ -11,6 +11,8 @@ Mul(A, B) == IF A[2] = B[1] THEN <<A[1], B[2]>> ELSE <<0, 0>>
 L_Order(k, iter, nb) == IF iter = 0 THEN k + nb ELSE k + 2 * nb
 \* its coefficient matrix (eigenvectors of the small problem): order x k
 L_Coef(k, iter, nb) == <<L_Order(k, iter, nb), k>>
-\* the active block never grows and is not empty while the iteration goes on
-L_BlockOK(b, nb) == nb >= 1 /\ nb <= b
+\* the active block (columns whose residual is still above the tolerance) is recomputed from all k columns in every iteration: it
+\* is not empty while the iteration goes on and never larger than k, but it may grow again (a column that had converged can leave
+\* the tolerance when the others move)
+L_BlockOK(k, nb) == nb >= 1 /\ nb <= k
 =============================================================================
